@@ -11,6 +11,7 @@ library) and the failure-containment model of C15 (Core/Exec/Error.lean):
   without a `CmdOK` hypothesis for whatever the environment can send.
 -/
 namespace QM.Sys
+variable [Cfg]
 
 /-! ### association lists -/
 
@@ -183,7 +184,7 @@ theorem notifyResult_keeps (w : WorkerSt) (a t : Pid) (r : Res) (x : Proc) (hx :
   | ok v =>
     simp only [WorkerSt.notifyResult, WorkerSt.notifyResultOk, wakeSelecting_procs, WorkerSt.modProc, hx]
     by_cases hs : x.stillAwaiting t = true
-    · refine ⟨{ x with awaiting := ainsert x.awaiting t (some v) }, by simp [hs], ⟨rfl, ?_, fun _ h => h, fun k v0 h => mem_ainsert_some h⟩, by intro h; cases h⟩
+    · refine ⟨{ x with awaiting := ainsert x.awaiting t (some v), unanswered := x.unanswered.filter (· ≠ t) }, by simp [hs], ⟨rfl, ?_, fun _ h => h, fun k v0 h => mem_ainsert_some h⟩, by intro h; cases h⟩
       intro k
       simp only [alookup_ainsert]
       by_cases hk : t = k
@@ -196,23 +197,30 @@ theorem notifyResult_keeps (w : WorkerSt) (a t : Pid) (r : Res) (x : Proc) (hx :
     simp only [WorkerSt.notifyResult, WorkerSt.notifyFailure, hx]
     by_cases hs : x.stillAwaiting t = true
     · simp only [hs, if_true, wakeSelecting_procs, WorkerSt.modProc, hx]
-      exact ⟨{ x with awaitFailed := sinsert x.awaitFailed t }, by simp, ⟨rfl, fun _ => rfl, fun k hk => mem_sinsert.mpr (Or.inl hk), fun _ v h => ⟨v, h⟩⟩,
+      exact ⟨{ x with awaitFailed := sinsert x.awaitFailed t, unanswered := x.unanswered.filter (· ≠ t) }, by simp, ⟨rfl, fun _ => rfl, fun k hk => mem_sinsert.mpr (Or.inl hk), fun _ v h => ⟨v, h⟩⟩,
         fun _ _ => mem_sinsert.mpr (Or.inr rfl)⟩
     · have hs' : x.stillAwaiting t = false := by simpa using hs
       simp only [hs']
       exact ⟨x, by simpa using hx, Keeps.refl x, fun _ h => by cases h⟩
+
+/-- `notify_pending` (variant `selectWaits`) only shortens `unanswered` -/
+theorem notifyPending_keeps (w : WorkerSt) (a t : Pid) (x : Proc) (hx : w.procs a = some x) :
+    ∃ x', (w.notifyPending a t).procs a = some x' ∧ Keeps x x' :=
+  ⟨{ x with unanswered := x.unanswered.filter (· ≠ t) }, by simp [WorkerSt.notifyPending, WorkerSt.modProc, hx],
+    ⟨rfl, fun _ => rfl, fun _ h => h, fun _ v h => ⟨v, h⟩⟩⟩
 
 theorem applyResults_keeps (a : Pid) : ∀ (rs : Results) (w : WorkerSt) (x : Proc), w.procs a = some x →
     ∃ x', (applyResults w a rs).procs a = some x' ∧ Keeps x x' ∧
       ∀ t, (t, some Res.err) ∈ rs → x.stillAwaiting t = true → t ∈ x'.awaitFailed
   | [], w, x, hx => ⟨x, hx, Keeps.refl x, by intro t h; simp at h⟩
   | (t0, none) :: rest, w, x, hx => by
-    obtain ⟨x', h1, h2, h3⟩ := applyResults_keeps a rest w x hx
-    refine ⟨x', by simpa [applyResults] using h1, h2, ?_⟩
+    obtain ⟨x1, g1, g2⟩ := notifyPending_keeps w a t0 x hx
+    obtain ⟨x', h1, h2, h3⟩ := applyResults_keeps a rest (w.notifyPending a t0) x1 g1
+    refine ⟨x', by simpa [applyResults] using h1, g2.trans h2, ?_⟩
     intro t ht hs
     rcases List.mem_cons.mp ht with h | h
     · cases h
-    · exact h3 t h hs
+    · exact h3 t h (by rw [g2.still]; exact hs)
   | (t0, some r) :: rest, w, x, hx => by
     obtain ⟨x1, g1, g2, g3⟩ := notifyResult_keeps w a t0 r x hx
     obtain ⟨x', h1, h2, h3⟩ := applyResults_keeps a rest (w.notifyResult a t0 r) x1 g1
@@ -255,7 +263,7 @@ theorem registered_awaiters_each_reported (s : Sys) (i : Wid) (t : Pid) (r : Res
 /-- **Awaiting after the failure**: `query_and_await` for a target that has already FAILED answers the
 placeholder and registers the awaiter (a failed process is not `Completed`), so that the
 `check_completed_processes` ending the same worker step reports the error. -/
-theorem query_of_failed_target_registers (w : WorkerSt) (a t : Pid) (x : Proc)
+theorem query_of_failed_target_registers (hv : Cfg.selectWaits = false) (w : WorkerSt) (a t : Pid) (x : Proc)
     (hx : w.procs t = some x) (hr : x.result = some .err) :
     (queryTargets w a [t]).2 = [(t, none)] ∧ a ∈ (queryTargets w a [t]).1.awaitersFor t ∧
     t ∈ (queryTargets w a [t]).1.awaited ∧ (queryTargets w a [t]).1.resultOf t = some .err := by
@@ -264,11 +272,24 @@ theorem query_of_failed_target_registers (w : WorkerSt) (a t : Pid) (x : Proc)
     rw [hx]; simp only [hr]
     split
     · rfl
-    · split <;> rfl
+    · split
+      · rfl
+      · simp [hv]
   simp only [queryTargets, hc, ainsert]
   refine ⟨by simp, by simp, mem_sinsert.mpr (Or.inr rfl), ?_⟩
   simp [WorkerSt.resultOf, hx, hr]
 
+
+/-- Variant `selectWaits` (notes/C05-fixes/01): a target that has FAILED — and is neither queued nor parked — is
+answered with its error in the first answer; nobody is registered, no second message follows. -/
+theorem query_of_failed_target_answers_waits (hv : Cfg.selectWaits = true) (w : WorkerSt) (a t : Pid) (x : Proc)
+    (hx : w.procs t = some x) (hr : x.result = some .err) (hq : t ∉ w.queue)
+    (hp : ¬ (t ∈ w.spawning ∨ t ∈ w.selecting)) :
+    queryTargets w a [t] = (w, [(t, some .err)]) := by
+  have hc : w.completedStatus t = some .err := by
+    unfold WorkerSt.completedStatus
+    simp [hx, hr, hq, hp, hv]
+  simp [queryTargets, hc, ainsert]
 
 /-! ### the rule of seeded/C15-3, kept for the witness -/
 
